@@ -39,7 +39,8 @@ func init() { register("erc20", erc20Driver) }
 
 // ---------------------------------------------------------------- actors
 // 0 erc20 module account   1..3 holders (with keys)   4 the "thief" hard-wired in
-// the malicious Solidity tokens   5 the zero address   6 deployer / minter of the
+// the malicious Solidity tokens (no key: its calls are keeper-level CallEVMs from its
+// address, op "spend")   5 the zero address   6 deployer / minter of the
 // external tokens   7 the script contract (asm.go): a contract that holds tokens
 // and makes a list of calls in one transaction
 const (
@@ -501,8 +502,8 @@ func (e *pegEnv) mustEth(from int, to common.Address, data []byte) {
 
 // ---------------------------------------------------------------- input
 type pegOp struct {
-	Op   string `json:"op"`             // fund rawsend cc ce eth send toggle params recv ack timeout ibcsend batch
-	A    int    `json:"a,omitempty"`    // sender / caller / escrow holder
+	Op   string `json:"op"`             // fund rawsend cc ce eth send toggle params recv ack timeout ibcsend batch spend
+	A    int    `json:"a,omitempty"`    // sender / caller / escrow holder; spend: the OWNER of the tokens (0 = the erc20 module account)
 	B    int    `json:"b,omitempty"`    // receiver
 	X    string `json:"x,omitempty"`    // amount
 	Call string `json:"call,omitempty"` // eth: transfer burn mint mode kill other
@@ -1071,6 +1072,18 @@ func (e *pegEnv) apply(p *pegPair, op pegOp) (int, string) {
 			return 9, s
 		}
 		return 5, s
+	case "spend":
+		// the beneficiary of the allowances that ERC20MaliciousDelayed hands out (the address hard-wired in the
+		// contract: nobody in the harness holds its key, so this cannot be a signed Ethereum transaction) calls
+		// token.transferFrom(owner, thief, x): a keeper-level CallEVM FROM THE THIEF'S ADDRESS (EvmKeeper.ApplyMessage
+		// with commit; no PostTxProcessing hook runs), written back only when the call succeeds
+		if x.Sign() <= 0 || op.A < 0 || op.A >= pegNA {
+			return 9, "refused by the harness: nothing to spend"
+		}
+		return flat(e.cached(func(ctx sdk.Context) error {
+			_, err := ek.CallEVM(ctx, e.abi, pegAddr[pThief], p.Contract, true, "transferFrom", pegAddr[op.A], pegAddr[pThief], x)
+			return err
+		}))
 	case "recv":
 		// IBC core runs the callback on a cache that is written only for a successful acknowledgement
 		rawDenom := "uatom"
@@ -1295,6 +1308,8 @@ func (op pegOp) coq() string {
 		return fmt.Sprintf("(Ack %s %s %d%%N %d%%N %s)", coqBool(op.S), coqBool(op.F), op.A, op.B, x)
 	case "timeout":
 		return fmt.Sprintf("(Timeout %s %d%%N %d%%N %s)", coqBool(op.F), op.A, op.B, x)
+	case "spend":
+		return fmt.Sprintf("(Spend %d%%N %s)", op.A, x)
 	}
 	panic("bad op " + op.Op)
 }
@@ -1357,6 +1372,12 @@ type pegTrack struct {
 	burned     *big.Int // tokens burned by holders themselves (coin-origin pair)
 	honestKind bool     // the module's contract / the compiled honest token
 	killed     bool     // cham: self-destructed
+	// the state clause (pegStateClause) and the listed findings
+	trapdoor     bool     // cham: the token has destroyed its own ledger outside transfer(): self-destruct, or a credit to the module that wrapped around 2^256
+	k7           bool     // a step of the K7 shape (pegClass) minted coins that the token did not report as arriving
+	k19Granted   bool     // ERC20MaliciousDelayed: a conversion entered through the EVM hook (transfer to the module address in an Ethereum transaction): the token has put an allowance of the thief on the module's tokens
+	k19          bool     // ... and the thief has spent from the module's tokens afterwards
+	knownDeficit *big.Int // coins the K7 steps minted without tokens + tokens the K19 spends took from the module: what the listed findings explain, no more
 }
 
 func (t *pegTrack) honestNow(kind string) bool {
@@ -1769,6 +1790,11 @@ func pegSpellingOracle(op pegOp, res int, errStr string, post *pegSnap, twin *pe
 	return ""
 }
 
+const (
+	pegClassK7  = "erc20:external-token-fake-transfer-log"
+	pegClassK19 = "erc20:hook-path-conversion-grants-allowance-on-module-tokens"
+)
+
 // pegClass: known-finding classes as predicates on the input's shape.
 func pegClass(p *pegPair, op pegOp, tr *pegTrack) string {
 	if p.OwnerMod {
@@ -1781,7 +1807,7 @@ func pegClass(p *pegPair, op pegOp, tr *pegTrack) string {
 				continue
 			}
 			if p.Kind == "fakelog" || (p.Kind == "cham" && c.To == pM && tr.mode == chFake) {
-				return "erc20:external-token-fake-transfer-log"
+				return pegClassK7
 			}
 		}
 		return ""
@@ -1789,17 +1815,73 @@ func pegClass(p *pegPair, op pegOp, tr *pegTrack) string {
 	if op.Op == "eth" {
 		// K7: external pair + hook path + a token that emits Transfer(_, module, x) without an honest transfer
 		if p.Kind == "fakelog" {
-			return "erc20:external-token-fake-transfer-log"
+			return pegClassK7
 		}
 		if p.Kind == "cham" && op.Call == "transfer" && op.B == pM && tr.mode == chFake {
-			return "erc20:external-token-fake-transfer-log"
+			return pegClassK7
 		}
 	}
 	return ""
 }
 
-func (tr *pegTrack) update(p *pegPair, op pegOp, res int) {
-	if res != 0 || op.Op != "eth" {
+func (tr *pegTrack) update(p *pegPair, op pegOp, res int, pre, post *pegSnap) {
+	if res != 0 {
+		return
+	}
+	tokM := func(s *pegSnap) *big.Int {
+		if s.Tok[pM] == nil {
+			return big.NewInt(0)
+		}
+		return s.Tok[pM]
+	}
+	dSupply := new(big.Int).Sub(post.Supply, pre.Supply)
+	// K7 (before the mode bookkeeping below: pegClass looks at the mode the step ran in)
+	if pegClass(p, op, tr) == pegClassK7 {
+		d := new(big.Int).Sub(tokM(post), tokM(pre))
+		if d.Sign() < 0 {
+			d = big.NewInt(0)
+		}
+		if un := new(big.Int).Sub(dSupply, d); un.Sign() > 0 {
+			tr.k7 = true
+			addTo(&tr.knownDeficit, un)
+		}
+	}
+	// K19: the input shape of the class: the pair's token is ERC20MaliciousDelayed (kind approve), a transfer of
+	// it to the module address in an Ethereum transaction was converted by the hook, a later spend took tokens
+	// of the module
+	if p.Kind == "approve" {
+		toModule := op.Op == "eth" && op.Call == "transfer" && op.B == pM
+		if op.Op == "batch" {
+			for _, c := range op.Calls {
+				toModule = toModule || (c.T == 0 && c.To == pM)
+			}
+		}
+		if toModule && dSupply.Sign() > 0 {
+			tr.k19Granted = true
+		}
+		if op.Op == "spend" && op.A == pM && tr.k19Granted {
+			tr.k19 = true
+			addTo(&tr.knownDeficit, pegAmt(op.X))
+		}
+	}
+	// cham: a credit to the module that wraps around 2^256 lowers the module's balance: the ledger is none any more
+	if p.Kind == "cham" && pre.Tok[pM] != nil {
+		credit := big.NewInt(0)
+		switch {
+		case op.Op == "eth" && (op.Call == "mint" || op.Call == "transfer") && op.B == pM, op.Op == "ce":
+			credit = pegAmt(op.X)
+		case op.Op == "batch":
+			for _, c := range op.Calls {
+				if c.T == 0 && c.To == pM {
+					credit = new(big.Int).Add(credit, pegAmt(c.X))
+				}
+			}
+		}
+		if new(big.Int).Add(pre.Tok[pM], credit).Cmp(maxU256) > 0 {
+			tr.trapdoor = true
+		}
+	}
+	if op.Op != "eth" {
 		return
 	}
 	switch op.Call {
@@ -1813,8 +1895,77 @@ func (tr *pegTrack) update(p *pegPair, op pegOp, res int) {
 	case "kill":
 		if p.Kind == "cham" {
 			tr.killed = true
+			tr.trapdoor = true
 		}
 	}
+}
+
+// pegRealEscrow: the tokens of the module as far as the harness can establish what is REALLY there, beside
+// what balanceOf(module) reports: the OpenZeppelin tokens (the module's own contract, the compiled honest,
+// siphon and delayed-malicious tokens) keep a ledger and balanceOf reads it: the reported figure; the
+// chameleon's ledger is read from its storage (balance of a = slot a); the constant-balance token and the
+// fake-log token have no ledger at all: nothing is escrowed whatever they answer.
+func (e *pegEnv) pegRealEscrow(p *pegPair, reported *big.Int) (*big.Int, string) {
+	switch p.Kind {
+	case "cham":
+		h := e.App.EvmKeeper.GetState(e.Ctx, p.Contract, common.BytesToHash(pegAddr[pM].Bytes()))
+		return new(big.Int).SetBytes(h.Bytes()), "the token's storage slot of the module address"
+	case "const", "fakelog":
+		return big.NewInt(0), "the token keeps no ledger"
+	}
+	if reported == nil {
+		return big.NewInt(0), "the token does not answer"
+	}
+	return new(big.Int).Set(reported), "OpenZeppelin ledger read by balanceOf"
+}
+
+// pegStateClause: the STATE clause of property C10, evaluated after EVERY step for EVERY pair kind, exactly as
+// the property states it: coin-origin pair: the ERC20 total supply never exceeds the coins escrowed in the
+// module account; ERC20-origin pair (while registered): the coin supply never exceeds the tokens escrowed by
+// the module - as the token reports them (no answer = none) and as far as the harness can establish what is
+// really there (pegRealEscrow).  Returned: the failed demand and by how much the circulating coins exceed
+// the escrow.  Not evaluated: a chameleon pair after the token destroyed its own ledger by a function outside
+// ERC-20 (self-destruct: the code drops the pair at the next conversion; a mint that wraps 2^256): no chain
+// code can keep anything backed against that.
+func pegStateClause(e *pegEnv, p *pegPair, post *pegSnap, tr *pegTrack) (string, *big.Int) {
+	if p.OwnerMod {
+		if post.Total == nil || post.Total.Cmp(post.Coin[pM]) > 0 {
+			return fmt.Sprintf("backing: token totalSupply %v exceeds the coins escrowed in the module account %s", post.Total, post.Coin[pM]), nil
+		}
+		return "", nil
+	}
+	if !post.Reg || (p.Kind == "cham" && tr.trapdoor) {
+		return "", nil
+	}
+	esc := big.NewInt(0)
+	if post.Tok[pM] != nil {
+		esc = new(big.Int).Set(post.Tok[pM])
+	}
+	real, how := e.pegRealEscrow(p, post.Tok[pM])
+	if real.Cmp(esc) < 0 {
+		esc = real
+	}
+	if post.Supply.Cmp(esc) > 0 {
+		return fmt.Sprintf("backing: the coin supply %s of this ERC20-origin pair exceeds the tokens escrowed by the module: balanceOf(module) reports %v, really there: %s (%s); the thief holds %v tokens",
+			post.Supply, post.Tok[pM], real, how, post.Tok[pThief]), new(big.Int).Sub(post.Supply, esc)
+	}
+	return "", nil
+}
+
+// pegStateClass: a failure of the state clause belongs to a listed finding only when the history has the
+// finding's input shape AND the listed steps explain the whole deficit (coins minted on bare logs: K7; tokens
+// the thief took from the module after a hook-path conversion: K19); one coin more is a new violation.
+func pegStateClass(tr *pegTrack, deficit *big.Int) string {
+	if deficit == nil || deficit.Cmp(tr.knownDeficit) > 0 {
+		return ""
+	}
+	switch {
+	case tr.k19:
+		return pegClassK19
+	case tr.k7:
+		return pegClassK7
+	}
+	return ""
 }
 
 // pegBatchShape: distribution tags of the sequence of token contracts one transaction calls
@@ -1869,7 +2020,7 @@ func pegRunCase(id string, in pegInput) Case {
 		return Case{ID: id, Kind: "history", Input: in, OracleOK: false, OracleMsg: "unknown kind " + in.Kind}
 	}
 	e := b.fork()
-	tr := &pegTrack{burned: big.NewInt(0), honestKind: in.Kind == "coin" || in.Kind == "honest"}
+	tr := &pegTrack{burned: big.NewInt(0), knownDeficit: big.NewInt(0), honestKind: in.Kind == "coin" || in.Kind == "honest"}
 	pre := e.snapshot(p)
 	steps, mcases := []string{}, []string{}
 	obsAll := []pegObs{}
@@ -1951,19 +2102,33 @@ func pegRunCase(id string, in pegInput) Case {
 			}
 		}
 		// the first failure counts; a failure inside a known-finding class does not hide a later one outside it
-		if oracleMsg == "" || class != "" {
-			m := pegOracle(e, p, op, res, &pre, &post, tr)
+		judge := oracleMsg == "" || class != ""
+		m, cl := "", ""
+		if judge {
+			// what the property demands of this STEP
+			m = pegOracle(e, p, op, res, &pre, &post, tr)
 			if m == "" {
 				m = pegSpellingOracle(op, res, errStr, &post, twin)
 			}
 			if m != "" {
-				if cl := pegClass(p, op, tr); oracleMsg == "" || cl == "" {
-					oracleMsg = fmt.Sprintf("step %d (%s on a %s pair): %s", i, name, in.Kind, m)
-					class = cl
-				}
+				cl = pegClass(p, op, tr)
 			}
 		}
-		tr.update(p, op, res)
+		tr.update(p, op, res, &pre, &post)
+		if judge && m == "" {
+			// what the property demands of the STATE after every step
+			var deficit *big.Int
+			if m, deficit = pegStateClause(e, p, &post, tr); m != "" {
+				cl = pegStateClass(tr, deficit)
+			}
+		}
+		if m != "" && (oracleMsg == "" || cl == "") {
+			oracleMsg = fmt.Sprintf("step %d (%s on a %s pair): %s", i, name, in.Kind, m)
+			class = cl
+		}
+		if op.Op == "spend" && res == 0 && !bigEq(pre.Tok[pM], post.Tok[pM]) {
+			tags["spend:took-tokens-of-the-module"] = true
+		}
 		pre = post
 	}
 	tl := []string{}
@@ -2114,6 +2279,85 @@ func pegGen(r *Rng, nops int) pegInput {
 		}
 		return bad(fc, op.SC) || bad(fa, op.SA) || bad(fb, op.SB)
 	}
+	// the thief spends: after a conversion attempt by message (cc / ce / the MsgSend wrapper / the IBC callbacks) or
+	// through the hook (a transfer to the module address, a script transaction) of EVERY token kind a `spend` op
+	// may follow - at once, or at the end of the history ("later spent") -: token.transferFrom(owner, thief, x) by
+	// the thief, owner mostly the module account, x = what was just converted / a part / one more / above the
+	// allowance of 10^18 / 0.  Its own random stream, and not counted in the history's length: the histories
+	// are the ones generated before, with spends in between.
+	xr := &Rng{s: r.s ^ 0x3c6ef372fe94f82b}
+	extra := 0
+	var lastConv *big.Int
+	spendOp := func(amt *big.Int) pegOp {
+		owner := pM
+		if xr.Chance(15) {
+			owner = holders[xr.Intn(3)]
+		}
+		var x *big.Int
+		switch j := xr.Intn(20); {
+		case j < 8:
+			x = new(big.Int).Set(amt)
+		case j < 13:
+			x = big.NewInt(1)
+			if amt.Sign() > 0 {
+				x.Add(x, xr.Below(amt))
+			}
+		case j == 13:
+			x = big.NewInt(1)
+		case j == 14:
+			x = new(big.Int).Add(amt, big.NewInt(1))
+		case j == 15:
+			x = new(big.Int).Mul(big.NewInt(2), new(big.Int).Exp(big.NewInt(10), big.NewInt(18), nil)) // above the allowance
+		case j == 16:
+			x = new(big.Int).Set(maxU256)
+		case j == 17:
+			x = big.NewInt(0)
+		default:
+			x = new(big.Int).Rsh(amt, 1)
+			x.Add(x, big.NewInt(1))
+		}
+		if x.Cmp(maxU256) > 0 {
+			x = new(big.Int).Set(maxU256)
+		}
+		return pegOp{Op: "spend", A: owner, X: x.String()}
+	}
+	maybeSpend := func(op pegOp) {
+		var amt *big.Int
+		hookPath := false
+		switch op.Op {
+		case "cc", "ce", "send", "recv", "ack", "timeout":
+			amt = pegAmt(op.X)
+		case "eth":
+			if op.Call == "transfer" && op.B == pM {
+				amt, hookPath = pegAmt(op.X), true
+			}
+		case "batch":
+			for _, c := range op.Calls {
+				if c.T == 0 && c.To == pM {
+					if amt == nil {
+						amt = big.NewInt(0)
+					}
+					amt = new(big.Int).Add(amt, pegAmt(c.X))
+					hookPath = true
+				}
+			}
+		}
+		if amt == nil {
+			return
+		}
+		if amt.Cmp(maxU256) > 0 {
+			amt = new(big.Int).Set(maxU256)
+		}
+		lastConv = amt
+		chance := 12
+		if kind == "approve" && hookPath {
+			chance = 55
+		}
+		if xr.Chance(chance) {
+			push(spendOp(amt))
+			extra++
+		}
+	}
 	// initial endowments
 	for _, h := range holders {
 		if !r.Chance(75) {
@@ -2235,7 +2479,7 @@ func pegGen(r *Rng, nops int) pegInput {
 			}
 		}
 	}
-	for len(in.Ops) < nops {
+	for len(in.Ops)-extra < nops {
 		a, bb := holders[r.Intn(3)], anyActor()
 		var op pegOp
 		rich := func(bal *[pegNA]*big.Int) int { // mostly an actor who has what the operation needs
@@ -2283,6 +2527,7 @@ func pegGen(r *Rng, nops int) pegInput {
 				if !spellRefused(f) {
 					shadow(f)
 				}
+				maybeSpend(f)
 			}
 			n := 2 + r.Intn(3)
 			if r.Chance(10) {
@@ -2457,6 +2702,16 @@ func pegGen(r *Rng, nops int) pegInput {
 			shadow(op)
 		} else if op.Op == "toggle" {
 			enabled = !enabled // the refused toggle did not happen
+		}
+		maybeSpend(op)
+	}
+	if lastConv != nil {
+		chance := 10
+		if kind == "approve" {
+			chance = 45
+		}
+		if xr.Chance(chance) {
+			push(spendOp(lastConv))
 		}
 	}
 	return in
